@@ -284,6 +284,7 @@ func (x *Exec) applyContract(fr *Frame, st *State, con *FuncContract, fn *ssa.Fu
 				if _, clash := cv[n]; !clash {
 					extra[n] = v
 				}
+				extra["arg_"+n] = v // always available, whatever the caller's own names
 			}
 		}
 		x.callSiteAssertsArgs(fr, st, key, in, extra)
@@ -1121,6 +1122,9 @@ func (x *Exec) onChanSend(fr *Frame, st *State, ch *Term, v Val, et types.Type, 
 	if key == "" {
 		return
 	}
+	if x.env.con.CloseOnly[key] && x.dry == 0 {
+		x.assert(st, "closeonly", "send on "+key+", declared close-only", tFalse, in.Pos(), nil)
+	}
 	{
 		hn := "ghost:sends:" + key
 		h := st.H(hn, arraySort(sortInt, sortInt))
@@ -1165,6 +1169,15 @@ func (x *Exec) chanRecv(fr *Frame, st *State, ch *Term, et types.Type, in ssa.In
 	key := x.chanKey(chv)
 	if key == "" {
 		return v
+	}
+	if x.env.con.CloseOnly[key] {
+		// nothing is ever sent on this channel (every send on it is flagged): a receive that
+		// succeeds has seen it closed, and closed is for ever
+		g := mkSelect(st.H("ghost:closed", arraySort(sortInt, sortBool)), ch)
+		if cond != nil && cond != tTrue {
+			g = mkImp(cond, g)
+		}
+		x.assume(st, g)
 	}
 	con := x.env.con.Callbacks["chan:"+key]
 	if con == nil {
